@@ -232,20 +232,39 @@ def replay_collective(inputs):
     J = len(srt)
     dist = lat.get_all_distances(pos, pos)
 
-    def Q(a, b):
-        near = min(dist[x, y] for x in (a[1], a[2]) for y in (b[1], b[2])) < md
+    def Q(a, b, strict=True):
+        dm = min(dist[x, y] for x in (a[1], a[2]) for y in (b[1], b[2]))
+        near = dm < md if strict else dm <= md
         return a[0] != b[0] and b[3] - a[4] <= Wn and a[3] - b[4] <= Wn and near
-    exp_pairs = {(p, q) for p in range(J) for q in range(p + 1, J) if Q(srt[p], srt[q])}
+    # a distance exactly equal to the cut-off is left unspecified by the statement ("within"): every strictly qualifying pair must be reported,
+    # every reported pair must qualify non-strictly (the same sandwich as in the deductive unit)
+    lo_pairs = {(p, q) for p in range(J) for q in range(p + 1, J) if Q(srt[p], srt[q])}
+    hi_pairs = {(p, q) for p in range(J) for q in range(p + 1, J) if Q(srt[p], srt[q], strict=False)}
     got = []
     for ei, ej in c.collective:
         got.append((tuple(int(v) for v in ei[COLS]), tuple(int(v) for v in ej[COLS])))
-    exp_rows = sorted((tuple(int(v) for v in srt[p]), tuple(int(v) for v in srt[q])) for p, q in exp_pairs)
+    rows_of = lambda pairs: sorted((tuple(int(v) for v in srt[p]), tuple(int(v) for v in srt[q])) for p, q in pairs)  # noqa: E731
+    lo_rows, hi_rows = rows_of(lo_pairs), rows_of(hi_pairs)
     bad = []
-    if sorted(got) != exp_rows:
-        bad.append(f'{len(got)} pairs reported, {len(exp_rows)} qualify (rows sorted by stop,start: {srt.tolist()}; window {Wn})')
-    involved = {p for pr in exp_pairs for p in pr}
-    if c.n_solo_jumps + c.n_coll_jumps != J or c.n_coll_jumps != len(involved):
-        bad.append(f'n_solo={c.n_solo_jumps}, n_coll={c.n_coll_jumps}, expected n_coll={len(involved)} of {J}')
+    from collections import Counter
+    cg, cl, ch = Counter(got), Counter(lo_rows), Counter(hi_rows)
+    if (cl - cg) or (cg - ch):
+        bad.append(f'{len(got)} pairs reported, {len(lo_rows)} qualify{"" if lo_rows == hi_rows else f" ({len(hi_rows)} counting distances equal to the cut-off)"} '
+                   f'(rows sorted by stop,start: {srt.tolist()}; window {Wn})')
+    # rows taking part in a reported pair (identified by content; identical rows are interchangeable)
+    rep = Counter()
+    for a_, b_ in set(got):
+        rep[a_] = max(rep[a_], 1)
+        rep[b_] = max(rep[b_], 1)
+    all_rows = Counter(tuple(int(v) for v in r_) for r_ in srt)
+    lo_inv, hi_inv = len({p for pr in lo_pairs for p in pr}), len({p for pr in hi_pairs for p in pr})
+    if c.n_solo_jumps + c.n_coll_jumps != J or not (lo_inv <= c.n_coll_jumps <= hi_inv):
+        bad.append(f'n_solo={c.n_solo_jumps}, n_coll={c.n_coll_jumps}, expected n_coll={lo_inv}{"" if lo_inv == hi_inv else f"..{hi_inv}"} of {J}')
+    elif not bad and lo_rows != hi_rows:
+        # in between: the count must be that of the rows in the pairs actually reported
+        inv_got = sum(all_rows[r_] for r_ in rep)
+        if c.n_coll_jumps != inv_got:
+            bad.append(f'n_coll={c.n_coll_jumps}, but the reported pairs involve {inv_got} jumps')
     if len(c.coll_jumps) != len(c.collective):
         bad.append('coll_jumps and collective differ in length')
     return {'reproduced': bool(bad), 'detail': '; '.join(bad) or 'ok'}
@@ -269,7 +288,12 @@ def bounded_collective(tier, seed):
             rows.append([int(rng.integers(0, 4)), int(a), int(b), s, s + transit])
         inp = {'rows': rows, 'n_sites': n, 'max_steps': int(rng.choice([0, 1, 2, 5, 20])), 'geometry': 'line', 'max_dist': float(rng.choice([1.0, 2.5, 4.5]))}
         if c % 10 == 1:
-            inp['max_dist'] = 0.0  # a cut-off of exactly zero: no two sites are closer than that, so no pair is collective
+            # a cut-off of exactly zero in a geometry with distinct sites 0.3 A apart: no two DIFFERENT sites are within it (jumps sharing a site are
+            # at distance exactly 0 = the cut-off: unspecified)
+            inp['max_dist'] = 0.0
+            inp['geometry'] = 'custom'
+            inp['lattice'] = [[6.0, 0, 0], [0, 6.0, 0], [0, 0, 6.0]]
+            inp['positions'] = [[0.1, 0.1, 0.1], [0.15, 0.1, 0.1], [0.6, 0.6, 0.1], [0.65, 0.6, 0.1], [0.1, 0.6, 0.6]][:n] if n <= 5 else None
         if c % 10 == 6:
             inp['rows'] = inp['rows'][:1]  # a table with a single jump: one solo jump, no pair
         if c % 3 == 2:
